@@ -611,6 +611,7 @@ func main() {
 	checkTrieCases(f, res, drv, cs, "large-batch")
 
 	checkTempTries(f, res, drv, r)
+	probeLeads(res)
 
 	// 5. state-diff sequences through core/state and core/deprecatedstate
 	legacyPurgeVariant = legacyPurges()
